@@ -1207,7 +1207,9 @@ fn padding_rows_oprf(env: &Env, src: &mut Src<'_>) -> CaseResult {
     });
     let res = match res {
         Ok(r) => r,
-        Err(e) => return Err(violation("padding-hang:oprf", format!("apply_dp_padding: {e}"), case)),
+        // a wall-clock limit is no verdict (a loaded or suspended machine hits it too)
+        Err(e) if e.starts_with("no result after") => return Err(CaseErr::Reject(format!("inconclusive: apply_dp_padding: {e}"))),
+        Err(e) => return Err(violation("padding-error:oprf", format!("apply_dp_padding: {e}"), case)),
     };
     let mut outs: [Vec<RawRow>; 3] = [vec![], vec![], vec![]];
     for (h, r) in res.iter().enumerate() {
@@ -1299,7 +1301,8 @@ fn padding_rows_agg(env: &Env, src: &mut Src<'_>) -> CaseResult {
     let (ins, res) = if b == 32 { agg_rows!(BA5, 32, 5, eps, delta, sens, mal, k, wseed, iseed) } else { agg_rows!(BA8, 256, 8, eps, delta, sens, mal, k, wseed, iseed) };
     let res = match res {
         Ok(r) => r,
-        Err(e) => return Err(violation("padding-hang:agg", format!("apply_dp_padding: {e}"), case)),
+        Err(e) if e.starts_with("no result after") => return Err(CaseErr::Reject(format!("inconclusive: apply_dp_padding: {e}"))),
+        Err(e) => return Err(violation("padding-error:agg", format!("apply_dp_padding: {e}"), case)),
     };
     let mut outs: [Vec<RawRow>; 3] = [vec![], vec![], vec![]];
     for (h, r) in res.into_iter().enumerate() {
